@@ -483,6 +483,13 @@ class _Env:
 
                 return copy.deepcopy(args[0])
             raise NotConstant(f"call of external {nm} not whitelisted")
+        if callable(callee) and any(callee is v for v in self.ce.externals.values()):
+            try:
+                return callee(*args, **kwargs)
+            except NotConstant:
+                raise
+            except Exception as exc:
+                raise NotConstant(f"external stub failed: {exc}") from exc
         if callee in _PURE_BUILTINS.values():
             try:
                 res = callee(*args, **kwargs)
